@@ -408,3 +408,21 @@ FIELD_SETS = [
     (("late_two_field", "late_two_flag"), "L2"),
     (("no_such_field_anywhere",), None),
 ]
+
+
+# ---------------------------------------------------------------- repository fixtures (optional)
+def _load_fixtures():
+    import os
+
+    from sim.pool import fixtures
+
+    repo = os.environ.get("VERIF_REPO", "/repo")
+    fx = fixtures.load(repo)
+    CLASSES.update(fx["classes"])
+    OBJS.update(fx["objs"])
+    XML.update(fx["xml"])
+    JSON.update(fx["json"])
+    return sorted(fx["classes"])
+
+
+FIXTURE_CLASSES = _load_fixtures()
